@@ -423,10 +423,11 @@ def d_float_float(name: str, fv: int, fw: int) -> bool:
 
 @cond(
     pre=["0 <= f < 8", "not isinstance(x, int) or -1 <= x <= 1", "not isinstance(x, str) or (len(x) <= 1 and in_alpha(x, '1-e'))"],
-    timeout=150,
-    timeout_thorough=300,
+    timeout=360,
+    timeout_thorough=400,
     shard={"name": FLOAT_FILTERS},
     shard_thorough={"name": ALL_FILTERS},
+    split={"f": list(range(8))},
     path_timeout=15,
     covers="special float on one side, int/bool/nil/short string on the other (both orders)",
     bounds="f in FLOATS; x: int -1..1 (optionally x 2^62) | bool | None | 1-char str over {1 - e}",
